@@ -1,6 +1,6 @@
 SPECIFICATION Spec
 CONSTANTS
-  Fams = {"lshape", "para", "curved"}
+  Fams = {"overlap", "nested"}
   MaxRoutes = 2
   PerClass = 2
   DEV_RemoveNoRebuild = FALSE
